@@ -301,6 +301,26 @@ func (tree *HTree) setReq(req *HTreeReq) {
 	tree.setToLeaf(&tree.ni, req)
 }
 
+// updatePos moves the entry of ki from oldPos to newPos, keeping version and
+// value hash, iff the tree still points at oldPos. Compare and update happen
+// under one lock so that a concurrent set of the same key is never overwritten.
+func (tree *HTree) updatePos(ki *KeyInfo, oldPos, newPos Position) bool {
+	tree.Lock()
+	defer tree.Unlock()
+
+	var req HTreeReq
+	req.ki = ki
+	tree.getLeaf(ki, &tree.ni)
+	if !tree.leafs[tree.ni.offset].Get(&req) || req.item.Pos != oldPos {
+		return false
+	}
+	req.Position = newPos
+	req.item.Pos = newPos
+	tree.getLeafAndInvalidNodes(ki, &tree.ni)
+	tree.setToLeaf(&tree.ni, &req)
+	return true
+}
+
 // remove if same offset or oldPos.ChunkID = -1
 func (tree *HTree) remove(ki *KeyInfo, oldPos Position) {
 	tree.Lock()
